@@ -1,8 +1,13 @@
-"""Tie-G: regenerate lean/LouModel/Gen/*.lean from /repo's current sources."""
+"""Tie-G: regenerate lean/LouModel/Gen/*.lean from /repo's current sources.
+Idempotent: every generator rewrites its file only when the content changes."""
 
 
 def generate():
-    from . import extract_log
+    from . import extract_log, extract_consts, extract_meta
     extract_log.generate()
+    extract_consts.generate()
+    extract_meta.generate()
+    from . import extract_log, extract_statics
+    extract_statics.generate()
     from . import extract_errors
     extract_errors.generate()
